@@ -116,7 +116,46 @@ PORTS = {
     "aoe": dict(kind="opt", store="i32", map=RGBT, n=2),
     "a2x": dict(kind="flt", n=3, lo="0", hi="10"),
     "v9": dict(kind="int", tag="i", store="i32", var="i8", n=3, lo=0, hi=100),
+    # rCOptionCb with its own get/set code (short storage), rArrayTCbMember
+    "ocs": dict(kind="opt", store="i16", map={b"x": 0, b"y": 1, b"z": 2}, lo=0, hi=2),
+    "vm": dict(kind="tog", n=4),
+    # more than 256 elements, long string
+    "abig": dict(kind="int", tag="i", store="i32", var="i8", n=300, lo=0, hi=100, big=True),
+    "tbig": dict(kind="tog", n=260, big=True),
+    "fbig": dict(kind="flt", n=257, lo="-4", hi="4", big=True),
+    "strbig": dict(kind="str", cap=600, big=True),
+    # declared bounds that the callback's variable cannot hold
+    "aib": dict(kind="int", tag="i", store="i32", var="i8", n=4, lo=0, hi=200),
+    "aicb": dict(kind="int", tag="i", store="i8", var="i8", n=3, lo=-100, hi=200),
+    "psb": dict(kind="int", tag="i", store="i16", var="i16", lo=-40000, hi=40000),
+    "pucn": dict(kind="int", tag="c", store="u8", var="u8", lo=-10, hi=300),
+    "pcb": dict(kind="int", tag="c", store="i8", var="i8", lo=-200, hi=100),
+    # rSpecial / rShort / rDefault / rCentered / rNoDefaults entries in front of the range
+    "pfs": dict(kind="flt", lo="0", hi="2.5"),
+    "pfd": dict(kind="flt", lo="-2", hi="2"),
+    "pis": dict(kind="int", tag="i", store="i32", var="i32", hi=16),
+    "pos": dict(kind="opt", store="i32", map={b"x": 0, b"y": 1, b"z": 2}, lo=0, hi=2),
+    "afsp": dict(kind="flt", n=3, lo="-1", hi="1"),
+    "ais": dict(kind="int", tag="i", store="i32", var="i8", n=2, lo=-3, hi=3),
+    # the table without array ports (hashed dispatch)
+    "hc": dict(kind="int", tag="c", store="i8", var="i8", lo=0, hi=127, flat=True),
+    "hf": dict(kind="flt", lo="-1", hi="1", flat=True),
+    "hi": dict(kind="int", tag="i", store="i32", var="i32", lo=-5, hi=5, flat=True),
+    "ho": dict(kind="opt", store="i32", map=RGBT, lo=0, hi=3, flat=True),
+    "ht": dict(kind="tog", flat=True),
+    "hs": dict(kind="str", cap=8, flat=True),
 }
+# rOption(onN, rOptions(v0, ..., v<N-1>)): the symbol written at position i means index i
+for _n in range(1, 25):
+    PORTS["on%d" % _n] = dict(kind="opt", store="i32", map={b"v%d" % _i: _i for _i in range(_n)})
+
+LONGNAME = "abcdefghij" * 20
+PREFIX_OBJ = ["/", "/sub/", "/" + LONGNAME + "/"]
+PREFIX_FLAT = ["/", "/flat/"]
+
+
+def prefixes(P):
+    return PREFIX_FLAT if P.get("flat") else PREFIX_OBJ
 
 
 def f32bits(x):
@@ -181,9 +220,10 @@ def int_values(rng, P):
     if r < 0.6:
         return rng.choice(c)
     if r < 0.8:
-        a = max(lo_s, int(P.get("lo", -50)) - 20)
-        b = min(hi_s, int(P.get("hi", 50)) + 20)
-        return rng.randint(a, b)
+        a = min(hi_s, max(lo_s, int(P.get("lo", -50)) - 20))
+        b = max(lo_s, min(hi_s, int(P.get("hi", 50)) + 20))
+        if a <= b:
+            return rng.randint(a, b)
     return rng.randint(lo_s, hi_s)
 
 
@@ -237,6 +277,8 @@ def gen_arg(rng, P, stats):
     r = rng.random()
     if r < 0.25:
         n = rng.choice([0, max(0, cap - 2), max(0, cap - 1), cap, cap + 1])
+    elif r < 0.5 and cap > 64:
+        n = rng.randint(cap // 3, cap - 1)
     else:
         n = rng.randint(0, 2 * cap + 2)
     return "s" + hx(bytes(rng.choice(STR_ALPH) for _ in range(n)))
@@ -252,14 +294,22 @@ def gen_odd_arg(rng, P, stats):
     if c == 1 and k in ("int", "opt"):      # outside the storage type
         return "%s%d" % (P.get("tag", "i"), rng.choice([-2 ** 31, 2 ** 31 - 1, 128, -129, 255, 256, 300, -300, 32768, -32769, 65536, 70000,
                                                      rng.randint(-2 ** 31, 2 ** 31 - 1)]))
-    if c == 2 and k == "flt":
-        return "f%08x" % rng.choice([0x7fc00000, 0xffc00000, 0x7fc00001])
+    if c == 2 and k == "flt":       # NaNs, quiet and signalling
+        return "f%08x" % rng.choice([0x7fc00000, 0xffc00000, 0x7fc00001, 0x7f800001, 0xffa00000, 0x7fbfffff])
     if c == 3 and k == "opt":
         return "S" + hx(rng.choice([b"nope", b"", b"re", b"redd", b"RED"]))
-    if c == 4 and k in ("flt", "int", "tog"):   # a second argument: the callbacks read the first one only
+    if c == 4:      # further arguments (the last alternative of a pattern accepts them): the callbacks read the first one only
         a = gen_arg(rng, P, stats)
-        return a + "+" + gen_arg(rng, P, stats)
+        if k == "opt" and rng.random() < 0.7:
+            a = "S" + hx(rng.choice(sorted(P["map"])))
+        stats["extra_args"] = stats.get("extra_args", 0) + 1
+        extra = [rng.choice(["i1", "c2", "f3f800000", "T", "F", "s6162", "S726564", gen_arg(rng, P, stats)])
+                 for _ in range(rng.randint(1, 2))]
+        return "+".join([a] + extra)
     return gen_arg(rng, P, stats)
+
+
+ODD_INDEX = [":", ":c", "x", "#", "-1", ":i", " "]
 
 
 def gen_index(rng, P, stats):
@@ -269,6 +319,9 @@ def gen_index(rng, P, stats):
         i = rng.randint(0, n - 1)
         if r < 0.25:
             i = rng.choice([0, n - 1])
+        elif n > 256 and r < 0.7:       # indices that do not fit a byte
+            i = rng.choice([255, 256, 257, n - 1, rng.randint(256, n - 1), rng.randint(256, n - 1)])
+            stats["index_above_255"] = stats.get("index_above_255", 0) + 1
         s = str(i)
     elif r < 0.93:
         i = rng.randint(0, n - 1)
@@ -283,12 +336,16 @@ def gen_index(rng, P, stats):
 def gen_line(rng, pid, stats):
     P = PORTS[pid]
     desc = table()[pid]
-    mode = rng.choice("RN")
-    nm = rng.randint(1, 8)
+    pf = prefixes(P)
+    mode = pf[0] if len(pf) == 2 and rng.random() < 0.5 else rng.choice(pf)
+    nm = rng.randint(1, 3 if P.get("big") else 8)
     msgs = []
     for _ in range(nm):
         idx = gen_index(rng, P, stats) if "n" in P else ""
         r = rng.random()
+        if r > 0.985:       # something that is not an index behind the name: no port matches
+            idx = rng.choice(ODD_INDEX) + "@"
+            stats["odd_path"] = stats.get("odd_path", 0) + 1
         if P.get("set_first") and not msgs:
             r = 0.5
         if r < 0.22:
@@ -302,8 +359,25 @@ def gen_line(rng, pid, stats):
         msgs.append(idx + a)
     stats["by_port_kind"][desc.split()[1]] = stats["by_port_kind"].get(desc.split()[1], 0) + 1
     stats["history_len"][str(nm)] = stats["history_len"].get(str(nm), 0) + 1
-    stats["mode"][mode] = stats["mode"].get(mode, 0) + 1
-    return "%s %s %s" % (mode, desc, " ".join(msgs))
+    mname = mode if len(mode) < 20 else "/<200 letters>/"
+    stats["mode"][mname] = stats["mode"].get(mname, 0) + 1
+    return "%s %s %s" % (hx(mode.encode()), desc, " ".join(msgs))
+
+
+def corpus_by_id():
+    """corpus/C14.ops keeps its witnesses as `#@ <prefix> <id> <msg>...`; the port's pattern,
+    metadata and initial state are taken from the working tree's own table, so that a change
+    of a port's metadata that does not touch the property cannot make a witness stale."""
+    import os
+    path = os.path.join(vlib.VERIF, "corpus", PROP + ".ops")
+    out = []
+    if os.path.exists(path):
+        for l in open(path):
+            if l.startswith("#@ "):
+                w = l.split()
+                if len(w) >= 4 and w[2] in table():
+                    out.append("%s %s %s" % (hx(w[1].replace("<LONG>", LONGNAME).encode()), table()[w[2]], " ".join(w[3:])))
+    return out
 
 
 def generate(rng, tier, stats):
@@ -313,20 +387,33 @@ def generate(rng, tier, stats):
     missing = [i for i in ids if i not in table()] + [i for i in table() if i not in PORTS]
     if missing:
         raise RuntimeError("harness table and oracle table differ: %s" % missing)
-    # every port, both modes, a query and a set first
+    # the regression witnesses of corpus/C14.ops
+    cb = corpus_by_id()
+    stats["corpus_by_id"] = len(cb)
+    for op in cb:
+        yield op
+    # every port, every prefix, a query and a set first
     for pid in ids:
         P = PORTS[pid]
         idx = "0@" if "n" in P else ""
-        for mode in "RN":
+        for mode in prefixes(P):
             first = "" if P.get("set_first") else idx + "q "
-            yield "%s %s %s%s%s %sq" % (mode, table()[pid], first, idx, gen_arg(rng, P, stats), idx)
+            yield "%s %s %s%s%s %sq" % (hx(mode.encode()), table()[pid], first, idx, gen_arg(rng, P, stats), idx)
     # `v9` (digit at the end of an array's name) makes the unrepaired rBOILS_BEGIN index far
     # outside the object on every message; the runner gives up after 200 crashes, so this one
-    # port gets a fixed small share
-    rest = [i for i in ids if i != "v9"]
+    # port gets a fixed small share.  The ports with several hundred elements / bytes print long
+    # states: a fixed share as well.
+    big = [i for i in ids if PORTS[i].get("big")]
+    rest = [i for i in ids if i != "v9" and i not in big]
     every = max(1, n // 100)
     for j in range(n):
-        yield gen_line(rng, "v9" if j % every == 0 else rng.choice(rest), stats)
+        if j % every == 0:
+            pid = "v9"
+        elif j % 25 == 1:
+            pid = big[(j // 25) % len(big)]
+        else:
+            pid = rng.choice(rest)
+        yield gen_line(rng, pid, stats)
 
 
 def neighbours(op, rng):
@@ -356,9 +443,13 @@ def parse_events(s):
     return evs
 
 
-def parse_state(P, s):
+def parse_state(P, s, raw=False):
+    """strings: the C string the field holds (None = no terminator inside the field);
+    `raw`: the token is the hex of the whole buffer (initial state on the op line)"""
     if P["kind"] == "str":
-        return unhx(s)
+        if raw:
+            return cstr(unhx(s))
+        return None if s.startswith("!") else unhx(s)
     if P["kind"] == "flt":
         return [int(x, 16) for x in s.split(",")]
     return [int(x) for x in s.split(",")]
@@ -408,8 +499,8 @@ def check_msg(P, loc, before, seg, tok, trunc=False):
     arg = tok
     if "@" in tok:
         it, arg = tok.split("@")
-        if not it.isdigit() or int(it) >= P["n"]:
-            return None, after          # names no element: outside the property
+        if "n" not in P or not it.isdigit() or int(it) >= P["n"]:
+            return None, after          # names no element / no port: outside the property
         idx = int(it)
     if "+" in arg:
         return None, after
@@ -429,7 +520,7 @@ def check_msg(P, loc, before, seg, tok, trunc=False):
     old = elem(before)
     # ---- query ---------------------------------------------------------------------------
     if arg == "q":
-        if k == "str" and cstr(old) is None:
+        if k == "str" and old is None:
             return None, after          # unterminated field: outside the property
         if not matched:
             return "query not delivered", after
@@ -448,7 +539,7 @@ def check_msg(P, loc, before, seg, tok, trunc=False):
         elif k == "tog":
             ok = r[2] == ("T" if old else "F")
         else:
-            ok = r[2] == "s" and unhx(r[3][0]) == cstr(old)
+            ok = r[2] == "s" and unhx(r[3][0]) == old
         return (None if ok else "query replied %r, stored value is %r" % (r, old)), after
     # ---- set: is the incoming value one the property quantifies over? ---------------------
     t = arg[0]
@@ -461,6 +552,9 @@ def check_msg(P, loc, before, seg, tok, trunc=False):
             return None, after
         lo, hi = decl_bounds_int(P, trunc)
         new = clamp(v, lo, hi)
+        s_lo, s_hi = INT_RANGE[P["store"]]
+        if not (lo_s <= new <= hi_s) or not (s_lo <= new <= s_hi):
+            return None, after          # the declared range lies outside the storage type
         changed = new != old
         dec = lambda s: int(s)
     elif k == "opt":
@@ -509,14 +603,14 @@ def check_msg(P, loc, before, seg, tok, trunc=False):
             return None, after
         s = unhx(arg[1:])
         new = s[:P["cap"] - 1]
-        changed = new != cstr(old)
+        changed = new != old
     if not matched:
         return "set message not delivered", after
     # ---- stored value ----------------------------------------------------------------------
     got = elem(after)
     if k == "str":
-        if cstr(got) != new:
-            return "stored string %r, expected %r (capacity %d)" % (cstr(got), new, P["cap"]), after
+        if got != new:
+            return "stored string %r, expected %r (capacity %d)" % (got, new, P["cap"]), after
     elif got != new:
         return "stored %r, expected %r (incoming %s, old %r)" % (got, new, arg, old), after
     if not others_same():
@@ -564,8 +658,8 @@ def oracle(op, out, trunc=False):
         return "output has %d segments for %d messages" % (len(segs), len(msgs))
     if segs[-1] != "X=ok":
         return "memory outside the port's own field changed (%s)" % segs[-1]
-    pfx = b"/sub/" if w[0] == "N" else b"/"
-    state = parse_state(P, w[7])
+    pfx = unhx(w[0])
+    state = parse_state(P, w[7], raw=True)
     for tok, seg in zip(msgs, segs):
         if seg == "bad-msg":
             continue
@@ -616,12 +710,9 @@ def main(argv):
         if a == "--seed" and i + 1 < len(argv):
             seed = int(argv[i + 1])
     ops = []
-    corpus = os.path.join(vlib.VERIF, "corpus", PROP + ".ops")
-    if os.path.exists(corpus):
-        ops = [l.strip() for l in open(corpus) if l.strip() and not l.startswith("#")]
     rng = random.Random(seed * 1000003 + 17)
     for j, op in enumerate(generate(rng, "quick", {})):
-        if j >= 150:
+        if j >= 400:
             break
         ops.append(op)
     exe = vlib.build_harness(ENGINE, HARNESS, "san")
